@@ -76,6 +76,8 @@ def rule_prob_threshold(ctx: Ctx) -> None:
 
 
 def run(ctx: Ctx) -> None:
+    from .c13 import rule_unwrap_order
+    rule_unwrap_order(ctx)
     from ..rules import placement as _placement
     _placement.rule_noise_placement(ctx)
     from ..rules import bitform as _bitform
